@@ -334,8 +334,7 @@ pub trait SemanticString<const CAPACITY: usize>:
         }
 
         if Self::is_invalid_content(temp.as_bytes()) {
-            let mut prefix = StaticString::<123>::new();
-            unsafe { prefix.insert_bytes_unchecked(0, bytes) };
+            let prefix = as_escaped_string(bytes);
             fail!(from self, with SemanticStringError::InvalidContent,
                 "Unable to strip prefix \"{}\" from string since it would result in the illegal content \"{}\".",
                 prefix, temp);
@@ -356,8 +355,7 @@ pub trait SemanticString<const CAPACITY: usize>:
         }
 
         if Self::is_invalid_content(temp.as_bytes()) {
-            let mut prefix = StaticString::<123>::new();
-            unsafe { prefix.insert_bytes_unchecked(0, bytes) };
+            let prefix = as_escaped_string(bytes);
             fail!(from self, with SemanticStringError::InvalidContent,
                 "Unable to strip prefix \"{}\" from string since it would result in the illegal content \"{}\".",
                 prefix, temp);
